@@ -1,5 +1,6 @@
 """Unit `upstream_filter` (C06, and C07's 'each referral strictly closer'): which records of an upstream reply are used."""
 from units.base import *
+from units.upstream_validate import VALIDATE_SPEC, VALIDATE_SPEC_RS
 import re
 
 REC = "crates/dns-resolver/src/recursive.rs"
@@ -53,6 +54,30 @@ def _r16(txt):
     return new, 1
 
 
+def _r24(txt):
+    """R24: `while let PAT = EXPR SPEC { BODY }` -> `loop SPEC { ENTRY if let PAT = EXPR { BODY } else { break; } }` (Rust's own desugaring of
+    while-let); lets the spliced loop entry (broadcast use ...) run before EXPR is evaluated."""
+    m = re.search(r"while let (Some\([a-z_]+\)) = ([^\n]+?)\s*\n(\s*(?:invariant|ensures|decreases)[^{]*)\{", txt)
+    if not m:
+        return txt, 0
+    open_i = m.end() - 1
+    depth, j = 0, open_i
+    while True:
+        if txt[j] == "{":
+            depth += 1
+        elif txt[j] == "}":
+            depth -= 1
+            if depth == 0:
+                break
+        j += 1
+    body = txt[open_i + 1:j]
+    # the spliced entry block is the first lines of the body up to the marker comment
+    k = body.find("// @entry-end")
+    entry, rest = (body[:k], body[k:]) if k >= 0 else ("", body)
+    new = txt[:m.start()] + "loop\n" + m.group(3) + "{" + entry + f"if let {m.group(1)} = {m.group(2)} {{" + rest + "} else { break; } }" + txt[j + 1:]
+    return new, 1
+
+
 R4a = ("R4", r"([a-z_0-9]+)\.union\(&([a-z_0-9]+)\)\.cloned\(\)\.collect\(\)", r"shim_hashset_union(&\1, &\2)")
 R4b = ("R4", r"([a-z_0-9]+)\.into_iter\(\)\.collect\(\)", r"shim_hashset_into_vec(\1)")
 R16m = ("R16", r"match_name\.map\(\|mn\| \(mn, ns_names\)\)", "match match_name { Some(mn) => Some((mn, ns_names)), None => None }")
@@ -85,11 +110,12 @@ SPECS = {
         r is Some ==> is_suffix(r->Some_0.0.labels@, target.labels@), // [C06:delegation_name_is_ancestor_of_question]
         r is Some ==> r->Some_0.0.labels@.len() > current_match_count, // [C06,C07:referral_strictly_closer]
         r is Some ==> nonempty_set(r->Some_0.1@), // [C06:delegation_has_nameservers]
+        r is Some ==> r->Some_0.1@.len() <= rrs@.len(),
         r is Some ==> forall|h: DomainName| #[trigger] r->Some_0.1@.contains(h) ==> exists|i: int| 0 <= i < rrs@.len() && ns_rr_for(#[trigger] rrs@[i], r->Some_0.0, h), // [C06:nameserver_names_come_from_ns_records_of_the_delegation]""",
         "entry": "broadcast use group_eq_axioms, vstd::std_specs::hash::group_hash_axioms, axiom_dn_key_model;",
         "loops": {"0": {"kw": "for", "iter_name": "it__", "spec": """        invariant
             it__.seq().len() == rrs@.len(), forall|j: int| 0 <= j < it__.seq().len() ==> *it__.seq()[j] == rrs@[j],
-            match_count >= current_match_count,
+            match_count >= current_match_count, ns_names@.len() <= it__.index@,
             none_dn(match_name) ==> match_count == current_match_count,
             match_name is Some ==> some_dn(match_name).labels@.len() == match_count && match_count > current_match_count,
             match_name is Some ==> is_suffix(some_dn(match_name).labels@, target.labels@),
@@ -98,9 +124,82 @@ SPECS = {
             "entry": "broadcast use group_eq_axioms, vstd::std_specs::hash::group_hash_axioms, axiom_dn_key_model; let ghost idx = it__.index@ as int; assert(*rr == rrs@[idx]); proof { if match_name is Some && rr.name.labels@.len() == match_count && is_suffix(rr.name.labels@, target.labels@) { lemma_suffix_same_len(rr.name.labels@, some_dn(match_name).labels@, target.labels@); } }"}},
         "anchors": [{"after": "ns_names.insert(nsdname.clone());", "nth": 0, "proof": "assert(ns_names@.contains(*nsdname));"},
                     {"after": "ns_names.insert(nsdname.clone());", "nth": 1, "proof": "assert(ns_names@.contains(*nsdname));"}]},
+    "follow_cnames": {"props": ["C06", "C10"], "rewrites": [("R24", _r24)],
+        "contract": """    ensures
+        r is Some ==> cmap_from(r->Some_0.1@, rrs@), // [C06:cname_links_come_from_the_reply]
+        r is Some ==> path_ok(r->Some_0.1@, rrs@, *target, r->Some_0.0, qtype), // [C06:final_name_reached_by_following_cnames]
+        r is Some ==> !r->Some_0.1@.contains_key(r->Some_0.0), // [C06:chain_followed_to_its_end]""",
+        "entry": "broadcast use group_eq_axioms, vstd::std_specs::hash::group_hash_axioms, axiom_dn_key_model;",
+        "loops": {
+            "0": {"kw": "for", "iter_name": "it__", "spec": """        invariant
+            it__.seq().len() == rrs@.len(), forall|j: int| 0 <= j < it__.seq().len() ==> *it__.seq()[j] == rrs@[j],
+            cmap_from(cname_map@, rrs@),
+            got_match ==> exists|i: int| 0 <= i < rrs@.len() && direct_match(#[trigger] rrs@[i], *target, qtype),""",
+                  "entry": "broadcast use group_eq_axioms, vstd::std_specs::hash::group_hash_axioms, axiom_dn_key_model; let ghost idx = it__.index@ as int; assert(*rr == rrs@[idx]);"},
+            "1": {"kw": "while", "spec": """        invariant
+            reach(cname_map@, tgt0, final_name, steps), steps == seen@.len(),
+            seen@.subset_of(cname_map@.values()),
+        ensures !cname_map@.contains_key(final_name),
+        decreases cname_map@.dom().len() - seen@.len(),
+""",
+                  "entry": """broadcast use group_eq_axioms, vstd::std_specs::hash::group_hash_axioms, axiom_dn_key_model;
+proof { cname_map@.lemma_values_len(); vstd::set_lib::lemma_len_subset(seen@, cname_map@.values()); lemma_reach_extend(cname_map@, tgt0, final_name, steps); }
+let ghost fin_b = final_name;
+// @entry-end"""},
+        },
+        "anchors": [
+            {"after": "let mut final_name = target.clone();", "proof": "let ghost tgt0 = *target; let ghost mut steps: nat = 0;"},
+            {"after": "seen.insert(target.clone());", "proof": """proof {
+    assert(cname_map@.values().contains(*target)) by { assert(cname_map@.contains_key(fin_b) && cname_map@[fin_b] == *target); }
+    steps = steps + 1;
+    let s_new = seen@;
+    cname_map@.lemma_values_len(); vstd::set_lib::lemma_len_subset(s_new, cname_map@.values());
+}"""},
+            {"after": "if got_match || !seen.is_empty() {", "at": "before", "proof": """proof {
+    assert(reach(cname_map@, *target, final_name, steps));
+    assert(!seen@.is_empty() ==> steps > 0) by { if seen@.len() == 0 { assert(seen@ =~= Set::<DomainName>::empty()); } }
+}"""},
+            {"after": "if got_match || !seen.is_empty() {", "proof": """proof {
+    assert(steps > 0 || got_match);
+    assert(got_match ==> exists|i: int| 0 <= i < rrs@.len() && direct_match(#[trigger] rrs@[i], *target, qtype));
+    assert(reach(cname_map@, *target, final_name, steps) && (steps > 0 || exists|i: int| 0 <= i < rrs@.len() && direct_match(#[trigger] rrs@[i], *target, qtype)));
+    assert(path_ok(cname_map@, rrs@, *target, final_name, qtype));
+}"""},
+        ]},
 }
 
 SPEC_RS = """
+// every entry of the CNAME map is a CNAME record of the reply section it was built from
+pub open spec fn cmap_from(m: Map<DomainName, DomainName>, rrs: Seq<ResourceRecord>) -> bool {
+    forall|o: DomainName| #[trigger] m.contains_key(o) ==> exists|i: int| 0 <= i < rrs.len() && cname_rr(#[trigger] rrs[i], o, m[o])
+}
+pub open spec fn cname_rr(rr: ResourceRecord, owner: DomainName, tgt: DomainName) -> bool {
+    rr.name == owner && rr.rtype_with_data is CNAME && rr.rtype_with_data->CNAME_cname == tgt
+}
+// `to` is reached from `from` by following exactly n links of the CNAME map
+pub open spec fn reach(m: Map<DomainName, DomainName>, from: DomainName, to: DomainName, n: nat) -> bool
+    decreases n
+{ if n == 0 { from == to } else { m.contains_key(from) && reach(m, m[from], to, (n - 1) as nat) } }
+pub proof fn lemma_reach_extend(m: Map<DomainName, DomainName>, a: DomainName, b: DomainName, n: nat)
+    requires reach(m, a, b, n)
+    ensures m.contains_key(b) ==> reach(m, a, m[b], n + 1)
+    decreases n
+{
+    reveal_with_fuel(reach, 2);
+    if n > 0 && m.contains_key(b) {
+        lemma_reach_extend(m, m[a], b, (n - 1) as nat);
+        assert(((n - 1) as nat + 1) as nat == n);
+        assert(reach(m, m[a], m[b], n));
+    }
+}
+// the final name is reached from the question name by following n CNAME links of the reply; with n == 0 the reply holds a record of
+// the asked type at the question name itself
+pub open spec fn path_ok(m: Map<DomainName, DomainName>, rrs: Seq<ResourceRecord>, target: DomainName, fin: DomainName, q: QueryType) -> bool {
+    exists|n: nat| #[trigger] reach(m, target, fin, n) && (n > 0 || exists|i: int| 0 <= i < rrs.len() && direct_match(#[trigger] rrs[i], target, q))
+}
+pub open spec fn direct_match(rr: ResourceRecord, target: DomainName, q: QueryType) -> bool { rr.name == target && qtype_matches(spec_rtype_of(rr.rtype_with_data), q) }
+pub open spec fn qtype_matches(t: RecordType, q: QueryType) -> bool { q == QueryType::Wildcard || q == QueryType::Record(t) }
+
 pub open spec fn nonempty_set(s: Set<DomainName>) -> bool { exists|h: DomainName| #[trigger] s.contains(h) }
 spec fn none_rr(o: Option<&ResourceRecord>) -> bool { o is None }
 spec fn some_rr(o: Option<&ResourceRecord>) -> &ResourceRecord { o->Some_0 }
@@ -135,11 +234,52 @@ def build(G):
     specs.update(as_assumed(NAME_SPECS, ["DomainName::is_subdomain_of"]))
     specs["RecordTypeWithData::rtype"] = {"mode": "assume", "props": [], "contract": "    ensures r == spec_rtype_of(*self),"}
     G.impl(T, "DomainName", ["is_subdomain_of"], "DomainName::", specs)
-    G.impl(T, "RecordTypeWithData", ["rtype"], "RecordTypeWithData::", specs)
     G.top_fn(N, "response_matches_request", specs)
     G.top_fn(N, "get_nxdomain_nodata_soa", specs)
+    specs["RecordType::matches"] = {"props": ["C06"], "mode": "prove", "contract": "    ensures r == qtype_matches(*self, qtype),", "entry": "broadcast use group_eq_axioms;"}
+    specs["RecordTypeWithData::matches"] = {"props": ["C06"], "mode": "prove", "contract": "    ensures r == qtype_matches(spec_rtype_of(*self), qtype),"}
+    G.impl(T, "RecordType", ["matches"], "RecordType::", specs)
+    G.impl(T, "RecordTypeWithData", ["matches", "rtype"], "RecordTypeWithData::", specs)
     G.top_fn(R, "get_better_ns_names", specs)
+    G.top_fn(R, "follow_cnames", specs)
+    G.raw(VALIDATE_SPEC_RS, ("spec", "validate spec"))
+    G.raw("""// R4 shims
+#[verifier::external_body]
+pub fn shim_hashset_union<T: std::cmp::Eq + std::hash::Hash + Clone>(a: &HashSet<T>, b: &HashSet<T>) -> (r: HashSet<T>)
+    ensures obeys_key_model::<T>() ==> r@ == a@.union(b@) && r@.len() <= a@.len() + b@.len() && (forall|x: T| #[trigger] a@.contains(x) ==> r@.contains(x))
+{ a.union(b).cloned().collect() }
+#[verifier::external_body]
+pub fn shim_hashset_into_vec<T: std::cmp::Eq + std::hash::Hash>(a: HashSet<T>) -> (r: Vec<T>)
+    ensures obeys_key_model::<T>() ==> (forall|x: T| r@.contains(x) <==> a@.contains(x)) && r@.no_duplicates() && ((exists|x: T| a@.contains(x)) ==> r@.len() > 0)
+{ a.into_iter().collect() }
+""", ("spec", "R4 shims"))
+    v = dict(VALIDATE_SPEC)
+    if "let mut on_path = HashSet::new();" not in R.s:
+        # shape before fix D-e: no on-path walk.  Same contract; the loop contracts follow the loops that are there.
+        lp = {}
+        for k in ("1", "2", "3", "4"):
+            d = dict(VALIDATE_SPEC["loops"][k])
+            d["spec"] = "\n".join(l for l in d["spec"].split("\n") if "on_path@" not in l)
+            lp[str(int(k) - 1)] = d
+        v["loops"] = lp
+        v["anchors"] = [a for a in VALIDATE_SPEC["anchors"] if "path_name" not in a["after"]]
+    v["rewrites"] = [("R24", _r24), ("R5", _r5), ("R16", _r16), R4a, R4b]
+    specs["validate_nameserver_response"] = v
+    specs["ResourceRecord::is_unknown"] = {"mode": "assume", "props": [], "contract": ""}
+    G.impl(T, "ResourceRecord", ["is_unknown"], "ResourceRecord::", specs)
+    G.top_fn(R, "validate_nameserver_response", specs)
     end(G)
 
 
-CANARIES = []
+CANARIES = [
+    {"name": "skip_id_check", "file": NSRV, "old": "    if request.header.id != response.header.id {\n        return false;\n    }\n", "new": ""},
+    {"name": "accept_truncated", "file": NSRV, "old": "    if response.header.is_truncated {\n        return false;\n    }\n", "new": ""},
+    {"name": "accept_servfail", "file": NSRV, "old": "response.header.rcode == Rcode::NoError || response.header.rcode == Rcode::NameError) {\n        return false;", "new": "response.header.rcode == Rcode::NoError || response.header.rcode == Rcode::NameError || response.header.rcode == Rcode::ServerFailure) {\n        return false;"},
+    {"name": "ns_not_strictly_better", "file": REC, "old": "                    Ordering::Equal => {\n                        ns_names.insert(nsdname.clone());\n                    }\n                    Ordering::Less => (),", "new": "                    Ordering::Equal => {\n                        match_name = Some(rr.name.clone());\n                        ns_names.insert(nsdname.clone());\n                    }\n                    Ordering::Less => (),"},
+    {"name": "ns_for_non_ancestor", "file": REC, "old": "            if target.is_subdomain_of(&rr.name) {", "new": "            if target.is_subdomain_of(&rr.name) || rr.name.is_subdomain_of(target) {"},
+    {"name": "glue_for_any_host", "file": REC, "old": "                RecordTypeWithData::A { .. } if ns_names.contains(&rr.name) => {\n                    nameserver_rrs.push(rr.clone());\n                }\n                RecordTypeWithData::AAAA { .. } if ns_names.contains(&rr.name) => {\n                    nameserver_rrs.push(rr.clone());\n                }\n                _ => (),\n            }\n        }\n\n        // this is a delegation", "new": "                RecordTypeWithData::A { .. } => {\n                    nameserver_rrs.push(rr.clone());\n                }\n                RecordTypeWithData::AAAA { .. } if ns_names.contains(&rr.name) => {\n                    nameserver_rrs.push(rr.clone());\n                }\n                _ => (),\n            }\n        }\n\n        // this is a delegation"},
+    {"name": "cname_any_owner", "file": REC, "old": "if on_path.contains(&an.name) && cname_map.get(&an.name) == Some(cname) {", "new": "if cname_map.get(&an.name) == Some(cname) {"},
+    {"name": "ns_any_owner", "file": REC, "old": "if rr.name == match_name && ns_names.contains(nsdname) =>\n                {\n                    nameserver_rrs.push(rr.clone());\n                }\n                _ => (),", "new": "if ns_names.contains(nsdname) =>\n                {\n                    nameserver_rrs.push(rr.clone());\n                }\n                _ => (),"},
+    {"name": "soa_any_owner", "file": NSRV, "old": "        if !question.name.is_subdomain_of(&rr.name) {\n            return None;\n        }\n", "new": ""},
+    {"name": "no_loop_detection", "file": REC, "old": "        if seen.contains(target) {\n            return None;\n        }\n", "new": ""},
+]
